@@ -1,7 +1,7 @@
 (* API entries for the C05 / C13 / C20 models (see Extract/ApiCommon.v for the conventions). *)
 From Coq Require Import NArith ZArith List String.
 From BU Require Import Base.Exn Base.Val Base.Bytes Gen.Consts Gen.SerbipConsts Extract.ApiCommon.
-From BU Require Model.Base58 Model.Bip32Data Model.Bip32Ser Model.Slip32 Model.WifCodec Model.Bip38 Model.Electrum Model.Brainwallet Model.SplToken.
+From BU Require Model.Base58 Model.Bip32Data Model.Bip32Ser Model.Slip32 Model.WifCodec Model.Bip38 Model.ElectrumWallet Model.Brainwallet Model.SplToken.
 Import ListNotations.
 Open Scope string_scope.
 
@@ -130,8 +130,8 @@ Section Api.
 
   (* ---- C20 *)
   Definition k1_is_inf (p : pt) : bool := match p with [] => true | _ => false end.
-  Definition v1_wallet_of (kind : N) (b : list N) : res (Electrum.v1_wallet pt) :=
-    if N.eqb kind 0 then Electrum.v1_from_private_key pt b else Electrum.v1_from_public_key pt k1_deser b.
+  Definition v1_wallet_of (kind : N) (b : list N) : res (ElectrumWallet.v1_wallet pt) :=
+    if N.eqb kind 0 then ElectrumWallet.v1_from_private_key pt b else ElectrumWallet.v1_from_public_key pt k1_deser b.
   Definition o_p2pkh_u (p : pt) : list N := o_p2pkh p false.
 
   (* Bip32 objects are opaque values [priv or empty; compressed pub; chain code; depth]; ckd is a reference oracle *)
@@ -147,17 +147,17 @@ Section Api.
   Definition obj_pub (o : val) : list N := match o with VL [_; VB p; _; _] => p | _ => [] end.
   Definition o_addr_p2pkh (p : list N) : list N := o_bytes ask "p2pkh_btc_pub" [VB p].
   Definition o_addr_p2wpkh (p : list N) : list N := o_bytes ask "p2wpkh_btc_pub" [VB p].
-  Definition idx_of (v : val) : option Electrum.idx_arg :=
+  Definition idx_of (v : val) : option ElectrumWallet.idx_arg :=
     match v with
-    | VL [VN 0; VZ z] => Some (Electrum.IdxInt z)
-    | VL [VN _; VN n] => Some (Electrum.IdxObj n)
+    | VL [VN 0; VZ z] => Some (ElectrumWallet.IdxInt z)
+    | VL [VN _; VN n] => Some (ElectrumWallet.IdxObj n)
     | _ => None
     end.
-  Definition v2_derived (wtype : N) (master : val) (c i : Electrum.idx_arg) : res val :=
+  Definition v2_derived (wtype : N) (master : val) (c i : ElectrumWallet.idx_arg) : res val :=
     if N.eqb wtype 0 then
-      m <- Electrum.v2_new val obj_depth master ;; Electrum.v2_std_derive val o_ckd m c i
+      m <- ElectrumWallet.v2_new val obj_depth master ;; ElectrumWallet.v2_std_derive val o_ckd m c i
     else
-      acc <- Electrum.v2_segwit_new val o_ckd obj_depth master ;; Electrum.v2_segwit_derive val o_ckd acc c i.
+      acc <- ElectrumWallet.v2_segwit_new val o_ckd obj_depth master ;; ElectrumWallet.v2_segwit_derive val o_ckd acc c i.
   Definition optn (v : val) : option N := match v with VL [VN n] => Some n | _ => None end.
   Definition bw_algo_of (a : list val) : option Brainwallet.bw_algo :=
     match a with
@@ -173,24 +173,24 @@ Section Api.
   Definition bytes_of (v : val) : list N := match v with VB b => b | _ => [] end.
 
   Definition api_c20 : list api_entry := [
-  ("dec_str", fun a => match a with [VN n] => Ok (VB (Electrum.dec_str n)) | _ => bad_call end);
+  ("dec_str", fun a => match a with [VN n] => Ok (VB (ElectrumWallet.dec_str n)) | _ => bad_call end);
   ("electrum_v1_priv", fun a => match a with [VN kind; VB b; VZ c; VZ i] =>
-      rb (w <- v1_wallet_of kind b ;; Electrum.v1_get_private_key sha256 pt k1_base k1_smul k1_ser_u w c i) | _ => bad_call end);
+      rb (w <- v1_wallet_of kind b ;; ElectrumWallet.v1_get_private_key sha256 pt k1_base k1_smul k1_ser_u w c i) | _ => bad_call end);
   ("electrum_v1_pub", fun a => match a with [VN kind; VB b; VZ c; VZ i] =>
       rb (w <- v1_wallet_of kind b ;;
-          p <- Electrum.v1_get_public_key sha256 pt k1_base k1_smul k1_add k1_is_inf k1_ser_u w c i ;; Ok (k1_ser_u p)) | _ => bad_call end);
+          p <- ElectrumWallet.v1_get_public_key sha256 pt k1_base k1_smul k1_add k1_is_inf k1_ser_u w c i ;; Ok (k1_ser_u p)) | _ => bad_call end);
   ("electrum_v1_addr", fun a => match a with [VN kind; VB b; VZ c; VZ i] =>
       rb (w <- v1_wallet_of kind b ;;
-          Electrum.v1_get_address sha256 pt k1_base k1_smul k1_add k1_is_inf k1_ser_u o_p2pkh_u w c i) | _ => bad_call end);
+          ElectrumWallet.v1_get_address sha256 pt k1_base k1_smul k1_add k1_is_inf k1_ser_u o_p2pkh_u w c i) | _ => bad_call end);
   (* [wallet type 0 standard / 1 segwit; what 0 private key / 1 public key / 2 address; master object; change; index] *)
   ("electrum_v2", fun a => match a with [VN wtype; VN what; master; c; i] =>
       match idx_of c, idx_of i with
       | Some c', Some i' =>
         let d := v2_derived wtype master c' i' in
-        rb (if N.eqb what 0 then Electrum.v2_private_key val obj_priv d
-            else if N.eqb what 1 then Electrum.v2_public_key val obj_pub d
-            else if N.eqb wtype 0 then Electrum.v2_std_address val obj_pub o_addr_p2pkh d
-            else Electrum.v2_segwit_address val obj_pub o_addr_p2wpkh d)
+        rb (if N.eqb what 0 then ElectrumWallet.v2_private_key val obj_priv d
+            else if N.eqb what 1 then ElectrumWallet.v2_public_key val obj_pub d
+            else if N.eqb wtype 0 then ElectrumWallet.v2_std_address val obj_pub o_addr_p2pkh d
+            else ElectrumWallet.v2_segwit_address val obj_pub o_addr_p2wpkh d)
       | _, _ => bad_call
       end | _ => bad_call end);
   (* [curve class id for the validity test; passphrase; algorithm description ...] *)
